@@ -167,7 +167,7 @@ partial def parseShape (cs : List Char) (next : Nat) : Option (Shape × List Cha
       let mk : Option Shape := match name, args with
         | "tuple", l => some (.tuple l) | "arr", l => some (.arr l) | "slice", l => some (.slice l) | "vec", l => some (.vec l)
         | "box", [x] => some (.box x) | "some", [x] => some (.some x) | "ok", [x] => some (.ok x) | "err", [x] => some (.err x)
-        | "cell0", [x] => some (.cell false x) | "cell1", [x] => some (.cell true x) | "md", [x] => some (.md x) | "aus", [x] => some (.aus x)
+        | "cell0", [x] => some (.cell false x) | "cell1", [x] => some (.cell true x) | "cell2", [x] => some (.cellShared x) | "md", [x] => some (.md x) | "aus", [x] => some (.aus x)
         | _, _ => none
       mk.map fun s => (s, rest'', next')
     | none => none
@@ -188,16 +188,6 @@ partial def parseArgs (cs : List Char) (next : Nat) (acc : List Shapes.Shape) : 
     | none => none
 end
 
-mutual
-/-- What one `finalize` call on the container forwards to (same traversal; a mutably borrowed cell is skipped). -/
-partial def finVisit : Shapes.Shape → List Nat
-  | .cc i => [i]
-  | .tuple l | .arr l | .slice l | .vec l => (l.map finVisit).flatten
-  | .box s | .some s | .ok s | .err s | .md s | .aus s => finVisit s
-  | .cell b s => if b then [] else finVisit s
-  | _ => []
-end
-
 partial def shapesLoop (h out : IO.FS.Stream) : IO Unit := do
   let line ← h.getLine
   if line.isEmpty then return ()
@@ -206,7 +196,7 @@ partial def shapesLoop (h out : IO.FS.Stream) : IO Unit := do
     match parseShape desc.toList 0, n.toNat? with
     | some (s, [], _), some n =>
       let v := Shapes.visit s
-      let f := finVisit s
+      let f := Shapes.finVisit s
       let counts := (List.range n).map fun i => toString (v.count i)
       let fins := (List.range n).map fun i => toString (f.count i)
       out.putStrLn s!"shape {desc} counts={",".intercalate counts} fin={",".intercalate fins}"
